@@ -69,6 +69,18 @@ def check_lock_unlock_delta(ctx):
             ctx.ob(f"{bp.rsplit('::',1)[1]}::unlock_amount|returns-delta-to-liquid", ok, "unlock_amount ends in internal_put(LiquidFungibleResource::new(max_locked - locked))", b.loc())
 
 
+def check_amount_validity(ctx):
+    """every lock / take of a caller-chosen amount is behind check_fungible_amount(amount, divisibility) == true, the only place a negative or
+    over-precise amount is rejected (shared with C04: a negative take leaves a negative vault balance)"""
+    F = ctx.F
+    DIV = G_bool_call(r"resource::.*check_fungible_amount$|::check_fungible_amount$", True)
+    for name, target in ((FV + "::create_proof_of_amount", re.escape(FV) + r"::lock_amount$"), (FV + "::take_advanced", re.escape(FV) + r"::internal_take$"),
+                         (FB + "::create_proof_of_amount", re.escape(FB) + r"::lock_amount$"), (FB + "::take_advanced", re.escape(FB) + r"::internal_take$")):
+        if name in F.fns:
+            b = ctx.body(name)
+            check_guarded(ctx, f"divisibility|{name.split('::')[-2]}::{name.split('::')[-1]}", b, call_blocks(b, target), [DIV], target.split("::")[-1].rstrip("$"))
+
+
 def run(ctx):
     F = ctx.F
     ctx.rule("T4: locked-balance substates (vault and bucket, fungible and non-fungible) are written only by lock_*/unlock_*; liquid "
@@ -118,10 +130,5 @@ def run(ctx):
             check_guarded(ctx, f"{ty.split('::')[-1]}|on_drop-teardown", b, b.ok_exits(), [G_try(re.escape(R + ty) + r"::teardown$")], "Ok(()) of on_drop")
 
     check_lock_unlock_delta(ctx)
-    DIV = G_bool_call(r"resource::.*check_fungible_amount$|::check_fungible_amount$", True)
-    for name, target in ((FV + "::create_proof_of_amount", re.escape(FV) + r"::lock_amount$"), (FV + "::take_advanced", re.escape(FV) + r"::internal_take$"),
-                         (FB + "::create_proof_of_amount", re.escape(FB) + r"::lock_amount$"), (FB + "::take_advanced", re.escape(FB) + r"::internal_take$")):
-        if name in F.fns:
-            b = ctx.body(name)
-            check_guarded(ctx, f"divisibility|{name.split('::')[-2]}::{name.split('::')[-1]}", b, call_blocks(b, target), [DIV], target.split("::")[-1].rstrip("$"))
+    check_amount_validity(ctx)
     ctx.assume("max-of-locks arithmetic and its restoration are value-level and not decided")
